@@ -1,4 +1,5 @@
 import Model.Session
+import Proofs.Signals
 /-! helpers: what a successful connect leaves behind -/
 namespace Model
 
@@ -16,4 +17,35 @@ theorem connectFinish_good (s : S) (clean : Bool) (prev : Option Conn) : Connect
     | exact connectFail_good _ _ _
     | (intro h; cases h; done)
     | (intro _; exact ⟨rfl, rfl, rfl⟩)
+def ConnectDown (r : S × ConnectResult) : Prop :=
+  ∀ e, r.2 = .done (some e) → r.1.link = .down ∧ r.1.waiters = []
+
+theorem failWaiters_waiters (s : S) (e : Err) : (s.failWaiters e).waiters = [] := by
+  unfold S.failWaiters; rfl
+
+theorem connectFail_down (s : S) (prev : Option Conn) (e : Err) : ConnectDown (s.connectFail prev e) := by
+  intro e' _
+  unfold S.connectFail
+  simp only
+  exact ⟨by rw [(failWaiters_sig _ _).2], failWaiters_waiters _ _⟩
+
+theorem connectFinish_down (s : S) (clean : Bool) (prev : Option Conn) (hc : s.conn.isSome) : ConnectDown (s.connectFinish clean prev) := by
+  unfold S.connectFinish
+  repeat' (first | split | dsimp only)
+  all_goals first
+    | exact connectFail_down _ _ _
+    | (intro e h; cases h; done)
+    | (intro e _; exact ⟨by rw [(failWaiters_sig _ _).2], failWaiters_waiters _ _⟩)
+    | (simp_all; done)
+theorem connWrite_conn_isSome (s : S) (f : WConn → WConn × WOut) (h : s.conn.isSome) : (s.connWrite f).1.conn.isSome := by
+  unfold S.connWrite
+  cases hc : s.conn with
+  | none => simp [hc] at h
+  | some c =>
+    simp only
+    split
+    · simp [hc]
+    · dsimp only
+      split <;> simp [S.emit]
+
 end Model
